@@ -16,8 +16,8 @@ plan('C12',
          Job(H, 'chain', 'plain', quick=1200, thorough=40000, shards=(2, 4), batch=300),
          Job(H, 'serial_counters', 'asan', quick=16, thorough=200, shards=(4, 8), params=dict(maxsched=400), tparams=dict(maxsched=5000), batch=4, case_timeout=300),
          Job(H, 'stress', 'tsan', quick=14, thorough=70, shards=(4, 4), params=dict(threads=16, ops=15000), tparams=dict(ops=100000), weight=4, batch=1, case_timeout=300, leakcheck=False),
-         Job(H, 'stress', 'asan', quick=14, thorough=70, shards=(4, 4), params=dict(threads=16, ops=50000), tparams=dict(ops=400000), weight=4, batch=7, case_timeout=300),
-         Job(H, 'stress', 'plain', quick=28, thorough=140, shards=(4, 4), params=dict(threads=16, ops=300000), tparams=dict(ops=2000000), weight=4, batch=7, case_timeout=300),
+         Job(H, 'stress', 'asan', quick=14, thorough=70, shards=(4, 8), params=dict(threads=16, ops=50000), tparams=dict(ops=200000), weight=4, batch=7, case_timeout=300),
+         Job(H, 'stress', 'plain', quick=28, thorough=140, shards=(4, 8), params=dict(threads=16, ops=300000), tparams=dict(ops=600000), weight=4, batch=7, case_timeout=300),
          Job(H, 'atomic_handle', 'asan', quick=16, thorough=160, shards=(8, 16), params=dict(rounds=3000), batch=4, case_timeout=300),
          Job(H, 'atomic_handle', 'tsan', quick=8, thorough=60, shards=(8, 8), params=dict(rounds=1000), batch=2, case_timeout=300, leakcheck=False),
          Job(H, 'dup_race', 'asan', quick=28, thorough=280, shards=(7, 14), params=dict(rounds=150), batch=7, case_timeout=300),
